@@ -6,10 +6,15 @@ CHECK = dict(
          "filter, or a backup was due (a selected target tag existed with another digest and a backup template is configured), or a selected tag had been "
          "moved at the target; distinct by (entries incl. filters/platform/mediaTypes/backup/switches, defaults, source and target populations as tag->image "
          "maps, registry feature sets, steps with source changes, YAML style, image graph shapes).",
-    jobs=[REPLAY, rapid("prop", "TestVerifProp", 12000, 480000, sq=16, st=16)],
+    jobs=[REPLAY, rapid("prop", "TestVerifProp", 12000, 360000, sq=16, st=16)],
     technique="property-based testing (rapid): generated regsync YAML configurations (image / repository / registry entries, allow and deny lists from a "
               "regex grammar incl. top-level alternation and tag prefixes, platform, mediaTypes, backup templates, referrers / digestTags / fastCheck / "
-              "forceRecursive as defaults and per-entry overrides, parallel 0-4) run through the real cobra commands `once` and `check` in-process against two "
+              "forceRecursive as defaults and per-entry overrides, parallel 0-4; since the generator-domain audit also: `platforms` lists, referrerFilters "
+              "(artifactType and/or annotations, entry and defaults), ratelimit.min against a source that sends RateLimit headers, cacheCount/cacheTime, "
+              "blobChunk/blobMax host settings, image sources by tag / digest / tag@digest / default tag, targets without a tag, Go templates in the target, "
+              "explicit empty filter lists, x-* extension fields, duplicated steps, OCI layouts (ocidir://) as source and/or target, `once --missing`, "
+              "--abort-on-error, drift of the target between runs, up to three runs, sha512 digests, blob-typed and artifact-typed index entries, foreign "
+              "layers) run through the real cobra commands `once` and `check` in-process against two "
               "model registries exposed on loopback; second run after generated source changes; oracle = raw before/after snapshots of both registries, "
               "an independent whole-string allow-then-deny matcher, the C03 closure auditor, and the model's request log",
     level_text="Generated-input search over sync configurations x source/target populations x registry feature sets x two-step histories. After every run that "
@@ -19,16 +24,22 @@ CHECK = dict(
                "overwritten tag with a backup template, at the instant of the overwriting PUT (request log) the independently expanded backup name resolves to the "
                "previous image, whose plain closure is present in the backup repository; the source repositories are unchanged and received no state-changing "
                "request; a `check` run sends no state-changing request at all and changes nothing; an unchanged second run of entries without "
-               "forceRecursive/referrers/digestTags sends no state-changing request to their targets. Exploration, not proof.",
+               "forceRecursive/referrers/digestTags sends no state-changing request to their targets. With `platforms:` only index entries of a listed "
+               "platform are required; with referrerFilters only referrers that some filter matches (artifactType AND annotations); with --missing a tag that "
+               "existed at the target may stay as it was; OCI-layout endpoints are judged on plain file reads (no request log: backups on the final state, "
+               "content that the layout's collector may remove is not required, the image of every untouched layout tag must survive). Exploration, not proof.",
     level_note="Two defects were found on the unchanged tree and are keyed by signature: filter-top-level-alternation-not-anchored (filterList built "
                "'^'+filter+'$'; attributed only to a tag/repository whose selection differs between whole-string and textual anchoring and that was (not) mirrored "
                "accordingly) and platform-target-holding-source-index-counts-as-match (processRef keeps tgtMatches from the index comparison after resolving the "
                "platform). Trusted: regmodel, audit walker, imggen, Go's regexp package (used with explicit whole-string anchoring), yaml.v3 for the renderer guard. "
                "Runs that report an error are only judged for the source and check-only clauses. Not asserted: referrers fallback tags (sha256-<hex>) and their "
                "backups, digest tags written by the digestTags feature; which entry of several with the same os/arch a platform selects (C16); manifests that "
-               "pre-existed at the target are treated as in C03 (trusted complete); OCI artifact manifests as index entries (C03 known finding) are not required; "
-               "blob-typed index entries are not generated (ImageCopy fails on some of them, an error outcome outside C18); `platforms`, "
-               "referrerFilters/Source/Target, ratelimit, hooks, server mode and --missing are not generated.",
+               "pre-existed at the target are treated as in C03 (trusted complete); over-copy of referrers that the referrerFilters exclude (the statement speaks of tags and repositories, "
+               "not of extra untagged manifests; counted as an observation label only); under --missing whether an existing tag is left alone; backups of digest "
+               "tags (also written as a side effect of digestTags); the implicit tag of a tag-less layout target. Not generated: referrerSource/referrerTarget, "
+               "includeExternal (generated foreign-layer urls are https), a rate limit below ratelimit.min (sleeps >= 5 min), hooks, server mode, auth / "
+               "mirrors / pathPrefix host settings (C11/C12), cancelled contexts (not in the quantifier; runOnce drops context.Canceled errors when parallel > 0), "
+               "tagSets / semver ranges (do not exist in this tree).",
     assumptions=["source content is spec-conformant and complete; everything pre-existing at the target is a complete image",
                  "every sync entry writes into its own target repositories (no two entries compete for one target tag)",
                  "loopback HTTP without TLS; fault-free registries (faults are C04/C12)"],
